@@ -164,6 +164,25 @@ def make_runner(mode, nodes, ctx0, d):
             for _ in range(k):
                 guarded(lambda: Pipeline(copy.deepcopy(nodes)).process(Payload(NoDataType(), ContextType(copy.deepcopy(ctx0)))))
         return run_k, [], lambda: None
+    if mode in ("fresh-traced", "reused-traced"):
+        from semantiva.trace.drivers.jsonl import JsonlTraceDriver
+        counter = [0]
+
+        def driver():
+            counter[0] += 1
+            return JsonlTraceDriver(str(d / f"trace_{mode}_{counter[0] % 7}.jsonl"), detail="hash")
+        if mode == "reused-traced":
+            pipe = Pipeline(copy.deepcopy(nodes), trace=driver())
+
+            def run_k(k):
+                for _ in range(k):
+                    guarded(lambda: pipe.process(Payload(NoDataType(), ContextType(copy.deepcopy(ctx0)))))
+            return run_k, [pipe.transport], lambda: None
+
+        def run_k(k):
+            for _ in range(k):
+                guarded(lambda: Pipeline(copy.deepcopy(nodes), trace=driver()).process(Payload(NoDataType(), ContextType(copy.deepcopy(ctx0)))))
+        return run_k, [], lambda: None
     if mode == "run-space":
         def run_k(k):
             cfg = {"extensions": ["props.components"], "pipeline": {"nodes": nodes},
@@ -274,7 +293,7 @@ def judge(mode, samples, generated_per_run=None, nodes_per_run=None):
                                                        b["objects"]["new_classes"] - a["objects"]["new_classes"], generated_per_run):
                 sig += ":unexpected-class-count"
             if part == "by_transport":
-                if mode in ("reused", "run-space") and nodes_per_run is not None and msgs == dn * nodes_per_run:
+                if mode in ("reused", "reused-traced", "run-space") and nodes_per_run is not None and msgs == dn * nodes_per_run:
                     sig += ":one-unconsumed-message-per-node"
                 elif mode == "queue" and msgs == 0:
                     sig += ":empty-channels-of-finished-jobs"
@@ -377,7 +396,7 @@ def run(tier: str) -> int:
             variants.append((nodes + [{"processor": "TFail"}] if pipegen.run_real(nodes + [{"processor": "TFail"}], ctx0)["cls"] == ("proc", "proc")
                              else [{"processor": "TSourceDef"}, {"processor": "TFail"}], True))
         with rt.tempdir() as d:
-            for (nodes, failing), mode in [(v, m) for v in variants for m in ("reused", "fresh", "run-space", "queue")]:
+            for (nodes, failing), mode in [(v, m) for v in variants for m in ("reused", "fresh", "fresh-traced", "reused-traced", "run-space", "queue")]:
                 if failing and mode == "run-space":
                     continue          # a launch stops at its first failing run: nothing is repeated
                 stats["failing_variants"] = stats.get("failing_variants", 0) + (1 if failing else 0)
